@@ -299,6 +299,7 @@ fn main() {
         Cross(usize),
         Large(usize),
         Full(usize, usize), // entry, first byte (all strings over the full alphabet)
+        Field(usize, u32, u32), // enumerated field index, value range: through the top-level entry points
     }
     let families: Vec<&str> = {
         let mut f: Vec<&str> = ents.iter().map(|e| e.family).collect();
@@ -351,6 +352,27 @@ fn main() {
             }
         }
     }
+    // every value of every enumerated wire field (C11's list), parsed and formatted by the top-level parsers
+    let fields = vchecks::fields::fields();
+    let top: Vec<usize> = [
+        "parse_tls_plaintext", "parse_tls_raw_record", "parse_tls_message_handshake", "parse_tls_extension", "parse_tls_server_hello_extension",
+        "parse_tls_extensions", "parse_dtls_plaintext_record", "parse_dtls_message_handshake", "parse_ecdh_params", "parse_digitally_signed",
+        "parse_ct_signed_certificate_timestamp_list", "parse_ct_signed_certificate_timestamp",
+    ]
+    .iter()
+    .map(|n| ents.iter().position(|e| e.name == *n).unwrap_or_else(|| machinery_failure("C01", "top-level entry missing")))
+    .collect();
+    for (fi, f) in fields.iter().enumerate() {
+        if f.bits == 0 {
+            continue;
+        }
+        let n = 1u32 << f.bits;
+        let mut lo = 0;
+        while lo < n {
+            items.push(Item::Field(fi, lo, (lo + 2048).min(n)));
+            lo += 2048;
+        }
+    }
     let d = run.tier.pick(1, 2);
     let sfx: Vec<Vec<u8>> = vec![vec![0x00], vec![0xff, 0xff, 0xff]];
 
@@ -381,7 +403,7 @@ fn main() {
             .map(|tid| {
                 let slot = slots[tid].clone();
                 let shared = shared.clone();
-                let (items, ents, corpora, cross, large, sfx, next) = (&items, &ents, &corpora, &cross, &large, &sfx, &next);
+                let (items, ents, corpora, cross, large, sfx, next, fields, top) = (&items, &ents, &corpora, &cross, &large, &sfx, &next, &fields, &top);
                 s.spawn(move || {
                     let mut sink = Sink::new();
                     let mut one = |ei: usize, b: &[u8], sink: &mut Sink| {
@@ -451,6 +473,14 @@ fn main() {
                             Item::Large(ei) => {
                                 for b in large.iter() {
                                     one(*ei, b, &mut sink);
+                                }
+                            }
+                            Item::Field(fi, lo, hi) => {
+                                for x in *lo..*hi {
+                                    let w = (fields[*fi].build)(x);
+                                    for ei in top.iter() {
+                                        one(*ei, &w.buf, &mut sink);
+                                    }
                                 }
                             }
                             Item::Full(ei, first) => {
@@ -534,7 +564,7 @@ fn main() {
     cov.insert("heap_bound".into(), json!(format!("{} + {} x input length (bytes), parse + Debug formatting, per call", HEAP_BASE, HEAP_PER_BYTE)));
     cov.insert("watchdog_limit_s".into(), json!(limit.as_secs()));
     cov.insert("rule".into(), json!(format!(
-        "every one of {} entry points (all pub fn parse_* / tls_parser* plus the derived Parse impls; explicit len / header arguments crossed over their boundary domains) on: its family's catalogue with every combination of <= {} deviations; every string of bounded length over the family's positional alphabet; all byte strings of length <= 2 over the full alphabet (<= 3 for five main parsers in the thorough tier); the undeviated encodings of every other family; SNI / ALPN extensions (alone and inside a ClientHello record) whose names are multi-byte UTF-8 sequences (2-, 3-, 4-byte and a dangling lead byte) at every alignment and every length 0..=600; 51 inputs of 16640 / 16641 / 65535 bytes made of the densest message kinds. Every Ok value is formatted with {{:?}} and {{:#?}}. Plus every transition of the defragmenter exploration (S0, S1, S2). Built with overflow-checks and debug-assertions. Oracle: no unwinding, watchdog, peak heap bound. Non-trivial: not (Incomplete on an input of <= 4 bytes)",
+        "every one of {} entry points (all pub fn parse_* / tls_parser* plus the derived Parse impls; explicit len / header arguments crossed over their boundary domains) on: its family's catalogue with every combination of <= {} deviations; every string of bounded length over the family's positional alphabet; all byte strings of length <= 2 over the full alphabet (<= 3 for five main parsers in the thorough tier); the undeviated encodings of every other family; SNI / ALPN extensions (alone and inside a ClientHello record) whose names are multi-byte UTF-8 sequences (2-, 3-, 4-byte and a dangling lead byte) at every alignment and every length 0..=600; 51 inputs of 16640 / 16641 / 65535 bytes made of the densest message kinds; every value (all 256 / 65536) of each of the 38 enumerated wire fields of C11 inside a well-formed structure through 12 top-level parsers (so that name tables and value-dependent formatting are exercised over complete domains). Every Ok value is formatted with {{:?}} and {{:#?}}. Plus every transition of the defragmenter exploration (S0, S1, S2). Built with overflow-checks and debug-assertions. Oracle: no unwinding, watchdog, peak heap bound. Non-trivial: not (Incomplete on an input of <= 4 bytes)",
         ents.len(), d)));
     if !missing.is_empty() {
         println!("note: pub parse functions without a registry entry: {:?}", missing);
